@@ -1,7 +1,6 @@
 package h
 
 import (
-	"math"
 	"regexp"
 	"time"
 
@@ -104,7 +103,7 @@ func c20Num[T c20number](mk func() *z.NumberSchema[T], nd func(string) T, op, mo
 	if mode == "validate" {
 		d := x
 		errs := s.Validate(&d)
-		if x == zero && !isNegZero(x) {
+		if x == zero { // incl. -0.0: reflect.Value.IsZero compares floats with == since Go 1.22
 			v.Cover("absent")
 			v.Assert(len(errs) == 0, "C20:absent-optional-tested")
 			return
@@ -118,19 +117,6 @@ func c20Num[T c20number](mk func() *z.NumberSchema[T], nd func(string) T, op, mo
 	c20Verdict(errs, ref, code)
 	v.Assert(d == x || x != x, "C20:parse-changed-value")
 }
-
-// -0.0 == 0 in Go but is not the zero value for Validate (reflect.IsZero looks at the bits)
-func isNegZero[T c20number](x T) bool {
-	switch f := any(x).(type) {
-	case float64:
-		return f == 0 && v.SameBits(f, negZero)
-	case float32:
-		return f == 0 && v.SameBits(float64(f), negZero)
-	}
-	return false
-}
-
-var negZero = math.Copysign(0, -1)
 
 func c20Str(op string) {
 	S := strMax()
